@@ -125,7 +125,7 @@ func init() {
 		ID:    "C11",
 		Title: "Slashing takes exactly the category's share of the disputed report's stake",
 		Funcs: append(fcNP("x/dispute/keeper.Keeper.GetDisputeFee", "x/dispute/keeper.GetSlashPercentageAndJailDuration", "x/reporter/keeper.Keeper.deductUnbondingDelegation", "x/reporter/keeper.Keeper.deductFromdelegation", "x/reporter/keeper.Keeper.undelegate"),
-			fc("x/reporter/keeper.Keeper.EscrowReporterStake", "x/dispute/keeper.Keeper.SlashAndJailReporter", "x/dispute/keeper.msgServer.ProposeDispute")...),
+			fc("x/reporter/keeper.Keeper.EscrowReporterStake", "x/dispute/keeper.Keeper.SlashAndJailReporter", "x/dispute/keeper.msgServer.ProposeDispute", "x/dispute/keeper.msgServer.AddFeeToDispute")...),
 		Assumptions: []string{
 			"assumed contract on the staking keeper (x/reporter/types.StakingKeeper): unbonding entries returned by GetUnbondingDelegation have non-negative balances; Set/RemoveUnbondingDelegation do not change bank balances, the validator set or total bonded tokens; GetRedelegationsFromSrcValidator only reads",
 			"EscrowReporterStake is entered with a stake record whose entries are present and non-negative, a slash amount >= 0 and a stated power >= 1",
@@ -133,7 +133,7 @@ func init() {
 		NotDecided: []string{
 			"that each backer's share is its proportion of the stake that backed the report (to within one unit): the code divides by power*10^6, not by the recorded total (open finding C11-negative-last-share); decided instead: the recorded parts add up to the slash amount exactly and the record's total is the slash amount",
 			"that the second undelegate (redelegation destination) covers what the first could not: its remainder is discarded by the code and the recorded amount is not reduced",
-			"slash-at-most-once per dispute, jailing durations reaching the reporter module, AddFeeToDispute completing a fee (same slashing path, not under contract)",
+			"jailing durations reaching the reporter module (JailReporter itself is under contract in C10); decided: the reporter is slashed exactly when a payment completes the fee (AddFeeToDispute, ProposeDispute) and a dispute whose fee is complete takes no further payment, hence at most once per dispute",
 			"stored validators keep positive delegator shares across Unbond (precondition of the second undelegate call: undecided)",
 		},
 	})
@@ -189,7 +189,8 @@ func init() {
 		ID:    "C04",
 		Title: "Escrow accounts always cover what the chain says it owes",
 		Funcs: fcNP("x/oracle/keeper.msgServer.Tip", "x/oracle/keeper.Keeper.transfer", "x/oracle/keeper.Keeper.AllocateRewards", "x/reporter/keeper.Keeper.DivvyingTips",
-			"x/bridge/keeper.Keeper.ClaimDeposit", "x/bridge/keeper.Keeper.WithdrawTokens", "x/reporter/keeper.msgServer.WithdrawTip", "x/dispute/keeper.Keeper.PayDisputeFee"),
+			"x/bridge/keeper.Keeper.ClaimDeposit", "x/bridge/keeper.Keeper.WithdrawTokens", "x/reporter/keeper.msgServer.WithdrawTip", "x/dispute/keeper.Keeper.PayDisputeFee",
+			"x/dispute/keeper.Keeper.ExecuteVote", "x/dispute/keeper.Keeper.RefundDisputeFee", "x/dispute/keeper.msgServer.WithdrawFeeRefund", "x/dispute/keeper.Keeper.ClaimReward"),
 		Assumptions: []string{
 			"per-operation conservation only: each function moves exactly the stated amounts between bank accounts and ledgers",
 		},
